@@ -27,7 +27,11 @@ RULE = ("matmul: all pairs of shapes (batch_a ++ [n,k]) x (batch_b ++ [k',m]) wi
         "contractible; diagonal / trace for every axis pair (both signs) and offsets -3..4; a sample through fixed-shape "
         "(nested std::array) operands. Data are distinct integers (iota from a random start, alternating sign) so any permuted or "
         "missing term changes the value. non-trivial = some operand of dim >= 2 with an extent > 1; distinct = distinct case lines")
-THEOREM_STATUS = {"proved": [], "partial": [], "refuted": []}
+THEOREM_STATUS = {"proved": ["C16_matmul_shape_spec", "C16_matmul_elem_spec", "C16_dot_spec", "C16_inner_spec", "C16_vecdot_spec",
+                             "C16_outer_spec", "C16_diagonal_spec", "C16_trace_spec"],
+                  "partial": [],
+                  "refuted": ["C16_matmul_v1_1d_refuted", "C16_diagonal_negative_offset_refuted", "C16_trace_empty_refuted",
+                              "C16_diagonal_beyond_refuted"]}
 ASSUMPTIONS = ["extents are positive", "the scalar addition is associative with a right-neutral zero (integers in the correspondence)",
                "element overflow is not modelled (test data keep every sum far below 2^63)"]
 
@@ -230,3 +234,10 @@ def classify(line, impl, spec, model):
         if op == "trace" and lib == 0 and impl.startswith("trap"):
             return "trace_empty_diagonal"
     return None
+
+
+def equal(a, b):
+    a = " ".join(a.split()); b = " ".join(b.split())
+    if a == b: return True
+    # the kind of run-time failure (which exception / signal) is not an observable of the model
+    return a.startswith("trap") and b.startswith("trap")
